@@ -33,6 +33,13 @@ func builtinGlobalEval(call FunctionCall) Value {
 		scop.depth++
 		defer func() { scop.depth-- }()
 	}
+	if scop := rt.scope; scop != nil {
+		// The bindings that eval code declares can be deleted (10.4.2, 10.5);
+		// Otto.Eval, which only stays in the current scope, is not eval code.
+		wasEval := scop.eval
+		scop.eval = true
+		defer func() { scop.eval = wasEval }()
+	}
 	returnValue := rt.cmplEvaluateNodeProgram(program, true)
 	if returnValue.isEmpty() {
 		return Value{}
